@@ -28,7 +28,7 @@ def tree_hash() -> str:
             if p.is_file() and "__pycache__" not in p.parts and not p.name.endswith(".pyc"):
                 files.append((str(p.relative_to(core.REPO)), p))
         # the harness modules that determine what is explored and how (monitors and oracles do not)
-        for name in ("progspace.py", "progspace_cst.py", "batch.py", "drive.py", "resultfiles.py", "seqspace.py", "progcheck.py", "manifests_space.py"):
+        for name in ("progspace.py", "progspace_cst.py", "batch.py", "drive.py", "resultfiles.py", "seqspace.py", "progcheck.py", "manifests_space.py", "sched.py", "checks/c11a.py"):
             files.append((name, core.VERIF / "cmverif" / name))
         for p in sorted((core.VERIF / "spaces").glob("*.jsonl")):
             files.append((p.name, p))
